@@ -167,14 +167,15 @@ def ob_hybrid(method, tier="quick", faults=False):
                 exact = [None, True, False][mode]
                 e, v, x = EH("bv", name="q"), EH("bv", name="val"), (EH("bool", name="x"),)
                 e.variables = frozenset({"v"})
-                n = 3
+                n = 1 + c.choose([True] * 3, "n")
+                signed = c.choose([True, True], "signed") == 1 if q in ("max", "min") else None
                 try:
                     if q in ("eval", "eval_to_ast"):
                         r = getattr(h, q)(e, n, extra_constraints=x, exact=exact); args = (e, n)
                     elif q == "batch_eval":
                         r = h.batch_eval([e], n, extra_constraints=x, exact=exact); args = ([e], n)
                     elif q in ("max", "min"):
-                        r = getattr(h, q)(e, extra_constraints=x, signed=True, exact=exact); args = (e,)
+                        r = getattr(h, q)(e, extra_constraints=x, signed=signed, exact=exact); args = (e,)
                     elif q == "solution":
                         r = h.solution(e, v, extra_constraints=x, exact=exact); args = (e, v)
                     elif q in ("is_true", "is_false"):
@@ -212,6 +213,8 @@ def ob_hybrid(method, tier="quick", faults=False):
                                                                 for p, q_ in zip(l[1], args))
                     c.check(label + "/same-question", l[0] == q and same_args and tuple(l[2].get("extra_constraints", ())) == x,
                             "a frontend was asked a different question than the caller's")
+                    if signed is not None:
+                        c.check(label + "/same-signedness", l[2].get("signed", False) == signed, "a frontend was asked for the optimum in the other signedness")
                 _inv(c, h, label)
             elif method == "_add":
                 new = [EH("bool", name="new") for _ in range(1 + c.choose([True, True], "n-added"))]
